@@ -46,6 +46,7 @@ type Scenario struct {
 	Nl        int               `json:"nl"`
 	Script    []string          `json:"script"`
 	PubFail   bool              `json:"pubfail"` // the connection refuses to publish resource events
+	Pollute   bool              `json:"pollute"` // a request with a mistyped payload is processed first
 	Name      int               `json:"name"`    // which resource name variant
 }
 
@@ -249,6 +250,17 @@ func execute(sc Scenario, rng *rand.Rand) (rec, error) {
 		case <-time.After(3 * time.Second):
 		}
 	}()
+	if sc.Pollute {
+		// a previous request whose payload is JSON but has a mistyped member: it is answered with an
+		// internal error and must leave no trace in the requests that follow
+		for k := 0; k < 3; k++ {
+			conn.Deliver("call.test.probe.m", fmt.Sprintf("inbox.pollute%d", k), []byte(`{"token":{"role":"admin"},"params":["stale"],"query":"stale=1","isHttp":true,"header":{"Stale":["1"]},"host":"stale.host","remoteAddr":"6.6.6.6","uri":"/stale","cid":42}`))
+			select {
+			case <-doneCh:
+			case <-time.After(2 * time.Second):
+			}
+		}
+	}
 	before := len(conn.Pubs())
 	// build the request
 	name := nv.name
@@ -366,6 +378,10 @@ func hdrString(h map[string][]string) string {
 	}
 	return b.String()
 }
+
+// ctlText contains what a hand-written JSON encoder gets wrong: control characters, DEL, quotes,
+// a non-printable rune outside the BMP, U+2028
+const ctlText = "esc\x1b nul\x00 bel\x07 del\x7f q\" bs\\ tag\U000e0001 ls\u2028 <&>"
 
 var rePre = regexp.MustCompile(`^timeout:"(\d+)"$`)
 
@@ -530,6 +546,16 @@ func doStep(r *res.Request, st string) {
 		r.Error(&res.Error{Code: "custom.error", Message: `m"sg`, Data: map[string]int{"d": 1}})
 	case "error-plain":
 		r.Error(errors.New("plain"))
+	case "error-res-ctl":
+		r.Error(&res.Error{Code: "custom.error", Message: ctlText})
+	case "error-plain-ctl":
+		r.Error(errors.New(ctlText))
+	case "invalidparams-ctl":
+		r.InvalidParams(ctlText)
+	case "invalidquery-ctl":
+		r.InvalidQuery(ctlText)
+	case "panic-str-ctl":
+		panic(ctlText)
 	case "notfound":
 		r.NotFound()
 	case "methodnotfound":
@@ -628,13 +654,13 @@ func doStep(r *res.Request, st string) {
 }
 
 var replySteps = map[string][]string{
-	"access": {"access", "access-none", "accessdenied", "accessgranted", "notfound", "invalidquery", "error-res", "error-plain"},
-	"get":    {"model", "querymodel", "collection", "model-bad", "notfound", "invalidquery", "error-res", "error-plain"},
+	"access": {"access", "access-none", "accessdenied", "accessgranted", "notfound", "invalidquery", "error-res", "error-plain", "error-res-ctl", "invalidquery-ctl"},
+	"get":    {"model", "querymodel", "collection", "model-bad", "notfound", "invalidquery", "error-res", "error-plain", "error-res-ctl", "error-plain-ctl"},
 	"new":    {"new", "new-bad", "notfound", "methodnotfound", "invalidparams", "error-res"},
-	"call":   {"ok", "ok-nil", "ok-bad", "resource", "resource-bad", "notfound", "methodnotfound", "invalidparams", "invalidparams-msg", "invalidquery", "error-res", "error-plain"},
+	"call":   {"ok", "ok-nil", "ok-bad", "resource", "resource-bad", "notfound", "methodnotfound", "invalidparams", "invalidparams-msg", "invalidquery", "error-res", "error-plain", "error-res-ctl", "error-plain-ctl", "invalidparams-ctl", "invalidquery-ctl"},
 }
 var otherSteps = []string{"ev-custom-bad", "ev-change-bad", "ev-add-bad", "timeout", "timeout-neg", "ev-custom", "ev-reserved", "ev-malformed", "ev-change", "ev-change-empty", "ev-add", "ev-add-neg", "ev-remove",
-	"ev-remove-neg", "ev-create", "ev-delete", "ev-reaccess", "ev-reset", "panic-res", "panic-err", "panic-str", "panic-int", "panic-nilerr"}
+	"ev-remove-neg", "ev-create", "ev-delete", "ev-reaccess", "ev-reset", "panic-res", "panic-err", "panic-str", "panic-int", "panic-nilerr", "panic-str-ctl"}
 
 func alphabet(sc *Scenario) []string {
 	k := sc.kind()
@@ -985,6 +1011,7 @@ func Run(c *core.Ctx) {
 		k := kinds[rng.Intn(len(kinds))]
 		sc := base(k, rng.Intn(10) != 0, []string{"valid", "valid", "empty", "malformed"}[rng.Intn(4)], rng.Intn(2) == 0, rng.Intn(5) != 0, []string{"model", "collection", "unset"}[rng.Intn(3)], rng.Intn(4), rng.Intn(3), rng.Intn(5))
 		sc.PubFail = rng.Intn(8) == 0
+		sc.Pollute = rng.Intn(4) == 0
 		al := alphabet(&sc)
 		n := rng.Intn(5)
 		for j := 0; j < n; j++ {
